@@ -16,9 +16,11 @@ import (
 	"math/rand"
 	"os"
 	"runtime"
-	"runtime/pprof"
+	"runtime/debug"
 	"sort"
 	"sync"
+	"sync/atomic"
+	"time"
 
 	"verifharness/internal/ev"
 )
@@ -26,8 +28,8 @@ import (
 type family struct {
 	Name    string
 	Scripts []script
-	Walks   int  // >0: sample this many random schedules per script instead of enumerating
-	PickN   int  // >0: only a seeded selection of this many scripts
+	Walks   int // >0: sample this many random schedules per script instead of enumerating
+	PickN   int // >0: only a seeded selection of this many scripts
 	reports []*scriptReport
 }
 
@@ -66,15 +68,49 @@ func product(nodes int, per [][]int) []script {
 	return out
 }
 
+// splitCanonical separates the scripts whose per-node call lists are in non-decreasing order
+// (one representative per renaming of the nodes) from the renamed variants.
+func splitCanonical(scs []script) (canon, renamed []script) {
+	code := func(c []int) int {
+		v := 0
+		for _, k := range c {
+			v = v*4 + k + 1
+		}
+		return v
+	}
+	for _, sc := range scs {
+		ok := true
+		for i := 1; i < len(sc); i++ {
+			if code(sc[i-1]) > code(sc[i]) {
+				ok = false
+			}
+		}
+		if ok {
+			canon = append(canon, sc)
+		} else {
+			renamed = append(renamed, sc)
+		}
+	}
+	return
+}
+
 const sampleThreshold = 50_000 // trees above this bound are sampled, not enumerated
 
 type job struct {
-	fam   *family
-	idx   int
-	sc    script
-	walks int
-	seed  int64
+	fam    *family
+	idx    int
+	sc     script
+	walks  int
+	seed   int64
+	budget *atomic.Int64 // schedules this script may still enumerate (shared by its subtree jobs)
+	fixed  []int         // enumerate only the subtree under this choice prefix
+	split  bool          // discover the subtrees first and enqueue one job per subtree
 }
+
+const (
+	splitBound = 3000 // trees that may be larger than this are enumerated by several workers
+	splitDepth = 4
+)
 
 type witness struct {
 	Mode string `json:"mode"` // "schedule" | "stress"
@@ -91,51 +127,61 @@ func main() {
 		"distinct by hash of (script, interleaving signature)")
 	r.Assume("lease expiry is decided from the durations used (+1h = unexpired for the whole run, -1h = expired when written), never from the clock",
 		"a read served by a lagging replica is modelled as an earlier read (reads and writes of a call are separate scheduling steps)",
+		"3 nodes x 2 calls, thorough tier: scripts that differ only by a renaming of the nodes (the managers differ in nothing but their NodeID, which is only compared for equality) "+
+			"are represented by one script each (165 of 729), all enumerated exhaustively, plus a seeded selection of 60 renamed variants, also enumerated exhaustively",
 		"managers are created once per worker and re-used across schedules (NewManager leaks table-cache goroutines); the store and the monitor are fresh per schedule; "+
 			"re-execution of every schedule prefix is checked to reach the same choice points",
 		"a successful ReturnTable whose delete found the record already gone removed nobody's lease: counted (return_delete_found_nothing), not a violation",
 		"a lease request that is refused although it could have been granted (e.g. lost compare-and-set) is not a violation: the statement is 'succeeds only if'; "+
 			"such behaviour shows up only in the coverage floors (grants by renewal / takeover / own return must be observed)")
 
-	if p := os.Getenv("C15_CPUPROF"); p != "" {
-		f, _ := os.Create(p)
-		pprof.StartCPUProfile(f)
-		defer pprof.StopCPUProfile()
-	}
 	if r.Replay != "" {
 		replay(r)
 		r.Finish()
 	}
+	// the set of distinct non-trivial schedules is millions of small strings in the thorough
+	// tier: collect less often
+	debug.SetGCPercent(400)
 
+	three2 := product(3, perNode(2, 2))
+	canon, renamed := splitCanonical(three2)
 	fams := []*family{
 		{Name: "2 nodes x 1-2 calls", Scripts: product(2, perNode(1, 2))},
 		{Name: "3 nodes x 1 call", Scripts: product(3, perNode(1, 1))},
 	}
 	if r.Thorough() {
 		fams = append(fams,
-			&family{Name: "3 nodes x 2 calls", Scripts: product(3, perNode(2, 2))},
+			&family{Name: "3 nodes x 2 calls (one script per node renaming)", Scripts: canon},
+			&family{Name: "3 nodes x 2 calls (renamed variants, selection)", Scripts: renamed, PickN: 60},
 			&family{Name: "2 nodes x 3 calls", Scripts: product(2, perNode(3, 3))},
-			&family{Name: "3 nodes x 3 calls (sampled)", Scripts: product(3, perNode(3, 3)), PickN: 96, Walks: 2000},
+			&family{Name: "3 nodes x 3 calls (sampled)", Scripts: product(3, perNode(3, 3)), PickN: 96, Walks: 1500},
 		)
 	} else {
-		fams = append(fams, &family{Name: "3 nodes x 2 calls (sampled)", Scripts: product(3, perNode(2, 2)), PickN: 48, Walks: 250})
+		fams = append(fams,
+			&family{Name: "3 nodes x 2 calls (sampled)", Scripts: three2, PickN: 96, Walks: 400},
+			&family{Name: "3 nodes x 2 calls (selection, enumerated)", Scripts: canon, PickN: 4},
+		)
 	}
+	t0 := time.Now()
 	explore(r, fams)
+	fmt.Printf("C15 exploration took %.1fs\n", time.Since(t0).Seconds())
 
 	// stress over a real RaftStore
-	runStress(r, r.Seed, r.Pick(250, 4000), 3)
+	t0 = time.Now()
+	runStress(r, r.Seed, r.Pick(500, 3000), 3)
+	fmt.Printf("C15 stress took %.1fs\n", time.Since(t0).Seconds())
 
-	r.FloorNontrivial(int64(r.Pick(2000, 200_000)))
-	r.FloorCount("schedules", int64(r.Pick(10_000, 1_000_000)))
+	r.FloorNontrivial(int64(r.Pick(10_000, 500_000)))
+	r.FloorCount("schedules", int64(r.Pick(20_000, 1_000_000)))
 	for _, c := range []string{"lease_ok_unclaimed", "lease_ok_renew_own", "lease_ok_takeover_expired", "lease_refused_live_foreign",
 		"return_ok_own", "return_declined_foreign", "cas_rejected_set", "cas_rejected_delete", "first_claims_lost_race"} {
 		r.FloorCount(c, int64(r.Pick(200, 5000)))
 	}
-	r.FloorCount("stress_calls", int64(r.Pick(1000, 20_000)))
-	for _, c := range []string{"stress_lease_ok_unclaimed", "stress_lease_ok_renew_own", "stress_lease_ok_takeover_expired", "stress_return_ok_own"} {
-		r.FloorCount(c, int64(r.Pick(20, 300)))
-	}
-	pprof.StopCPUProfile()
+	r.FloorCount("stress_calls", int64(r.Pick(3000, 18_000)))
+	r.FloorCount("stress_lease_ok_unclaimed", int64(r.Pick(30, 400)))
+	r.FloorCount("stress_lease_ok_renew_own", int64(r.Pick(50, 800)))
+	r.FloorCount("stress_lease_ok_takeover_expired", int64(r.Pick(4, 40)))
+	r.FloorCount("stress_return_ok_own", int64(r.Pick(30, 400)))
 	r.Finish()
 }
 
@@ -177,8 +223,21 @@ func explore(r *ev.Run, fams []*family) {
 	if nw > 16 {
 		nw = 16
 	}
-	ch := make(chan job)
-	var wg sync.WaitGroup
+	var (
+		mu      sync.Mutex // guards reports (several workers may contribute to one script)
+		pending sync.WaitGroup
+		queue   = make(chan job, 1<<16)
+		wg      sync.WaitGroup
+	)
+	deliver := func(j job, rep *scriptReport) {
+		mu.Lock()
+		if cur := j.fam.reports[j.idx]; cur == nil {
+			j.fam.reports[j.idx] = rep
+		} else {
+			cur.merge(rep)
+		}
+		mu.Unlock()
+	}
 	workers := make([]*worker, nw)
 	for i := 0; i < nw; i++ {
 		w := newWorker()
@@ -186,19 +245,46 @@ func explore(r *ev.Run, fams []*family) {
 		wg.Add(1)
 		go func() {
 			defer wg.Done()
-			for j := range ch {
-				if j.walks > 0 {
-					j.fam.reports[j.idx] = w.exploreWalks(j.fam.Name, j.sc, j.seed, j.walks, r.Nontrivial)
-				} else {
-					j.fam.reports[j.idx] = w.exploreDFS(j.fam.Name, j.sc, r.Nontrivial)
+			for j := range queue {
+				switch {
+				case watchdogs.Load() >= maxWatchdogs:
+					rep := newReport(j.fam.Name, j.sc, false)
+					if j.fixed == nil {
+						rep.Unsure = append(rep.Unsure, fmt.Sprintf("%s: not explored, the watchdog had fired %d times before", j.sc, maxWatchdogs))
+					}
+					deliver(j, rep)
+				case j.walks > 0:
+					deliver(j, w.exploreWalks(j.fam.Name, j.sc, j.seed, j.walks, r.Nontrivial))
+				case j.split:
+					subs, ok := w.subtrees(j.sc, splitDepth)
+					if !ok {
+						rep := newReport(j.fam.Name, j.sc, false)
+						rep.Unsure = append(rep.Unsure, fmt.Sprintf("%s: watchdog fired while partitioning the schedule tree", j.sc))
+						deliver(j, rep)
+						break
+					}
+					for _, p := range subs {
+						jj := j
+						jj.split, jj.fixed = false, p
+						pending.Add(1)
+						queue <- jj
+					}
+				default:
+					deliver(j, w.exploreDFS(j.fam.Name, j.sc, j.fixed, j.budget, r.Nontrivial))
 				}
+				pending.Done()
 			}
 		}()
 	}
 	for _, j := range jobs {
-		ch <- j
+		j.split = j.walks == 0 && j.sc.bound() > splitBound
+		j.budget = new(atomic.Int64)
+		j.budget.Store(int64(j.sc.bound() + 0.5))
+		pending.Add(1)
+		queue <- j
 	}
-	close(ch)
+	pending.Wait()
+	close(queue)
 	wg.Wait()
 
 	total := newStats()
@@ -243,7 +329,7 @@ func explore(r *ev.Run, fams []*family) {
 			outs := make([]string, 0, len(rep.Outcomes))
 			for o := range rep.Outcomes {
 				outs = append(outs, o)
-				r.Distinct("return_value_vectors", rep.Sc.String()+"="+o)
+				r.Distinct("return_value_vectors", rep.ScStr+"="+o)
 			}
 			perScript = append(perScript, fmt.Sprintf("%s: schedules=%d exhaustive=%v overlapping=%d distinct_interleavings=%d return_vectors=%d max_store_ops=%d",
 				rep.Sc, rep.Schedules, rep.Exhaustive, rep.Nontrivial, rep.Distinct, len(outs), rep.MaxDepth))
@@ -251,14 +337,25 @@ func explore(r *ev.Run, fams []*family) {
 			for s, n := range rep.ViolCount {
 				violTotals[s] += n
 			}
-			if rep.Sample != nil && famSamples < 2 && samples < 6 && rep.MaxDepth >= 4 {
-				rep.Sample["family"] = f.Name
-				rep.Sample["schedules_of_script"] = rep.Schedules
-				rep.Sample["exhaustive"] = rep.Exhaustive
-				r.Sample(rep.Sample)
-				famSamples++
-				samples++
+		}
+		// samples: the scripts of the family with the most different return-value vectors
+		order := make([]*scriptReport, 0, len(f.reports))
+		for _, rep := range f.reports {
+			if rep.Sample != nil {
+				order = append(order, rep)
 			}
+		}
+		sort.SliceStable(order, func(a, b int) bool { return len(order[a].Outcomes) > len(order[b].Outcomes) })
+		for _, rep := range order {
+			if famSamples >= 2 || samples >= 6 {
+				break
+			}
+			rep.Sample["family"] = f.Name
+			rep.Sample["schedules_of_script"] = rep.Schedules
+			rep.Sample["exhaustive"] = rep.Exhaustive
+			r.Sample(rep.Sample)
+			famSamples++
+			samples++
 		}
 		distinctTotal += dist
 		r.Eval(sched)
